@@ -1,0 +1,178 @@
+//go:build verif
+
+// Verification contracts for package tree (comment-only; compiled only with -tags verif).
+// Read by /verif/cmd/gvc; see /verif/DESIGN.md for the contract language.
+
+package tree
+
+// ---------------------------------------------------------------------------
+// assumed contracts
+
+// byte-wise comparison is a function of its arguments
+//@ extern bytes.Equal
+//@   pure
+
+// decoding the stored bytes of an update is deterministic (the update itself is immutable)
+//@ spec tvOf(Ref) Ref
+//@ extern (*cache.Update).Value
+//@   noeffect
+//@   ensures r0 == tvOf(u)
+
+// value equality: deterministic function of the two typed values (its own contract is property C12, package utils)
+//@ extern utils.EqualTypedValues
+//@   pure
+
+// ---------------------------------------------------------------------------
+// LeafEntry flags
+
+//@ func (*LeafEntry).MarkUpdate
+//@   props C01 C02 C09
+//@   requires l != nil
+//@   modifies l.Update, l.IsUpdated, l.Delete, l.IsNew
+//@   ensures l.Update == u && l.IsUpdated && !l.Delete && !l.IsNew
+
+//@ func (*LeafEntry).MarkNew
+//@   props C01 C02
+//@   requires l != nil
+//@   modifies l.IsUpdated, l.Delete, l.DeleteOnlyIntended, l.IsNew
+//@   ensures l.IsNew && !l.IsUpdated && !l.Delete && !l.DeleteOnlyIntended
+
+//@ func (*LeafEntry).MarkDelete
+//@   props C01 C02
+//@   requires l != nil
+//@   modifies l.IsUpdated, l.Delete, l.DeleteOnlyIntended, l.IsNew
+//@   ensures l.Delete && !l.IsNew && !l.IsUpdated
+//@   ensures orphan_flag: l.DeleteOnlyIntended == (old(l.DeleteOnlyIntended) || onlyIntended)
+
+//@ func (*LeafEntry).DropDeleteFlag
+//@   props C01 C02 C09
+//@   requires l != nil
+//@   modifies l.Delete, l.DeleteOnlyIntended
+//@   ensures !l.Delete && !l.DeleteOnlyIntended
+
+//@ func (*UpdateInsertFlags).Apply
+//@   props C01 C02
+//@   requires f != nil && le != nil
+//@   modifies le.IsUpdated, le.Delete, le.DeleteOnlyIntended, le.IsNew
+//@   ensures delete_wins: f.delete ==> le.Delete && !le.IsNew && !le.IsUpdated && le.DeleteOnlyIntended == (old(le.DeleteOnlyIntended) || f.onlyIntended)
+//@   ensures new: !f.delete && f.new ==> le.IsNew && !le.IsUpdated && !le.Delete && !le.DeleteOnlyIntended
+//@   ensures neither: !f.delete && !f.new ==> le.IsNew == old(le.IsNew) && le.IsUpdated == old(le.IsUpdated) && le.Delete == old(le.Delete) && le.DeleteOnlyIntended == old(le.DeleteOnlyIntended)
+
+//@ func NewLeafEntry
+//@   props C01 C02
+//@   requires flags != nil
+//@   modifies nothing
+//@   ensures result != nil && fresh(result) && result.Update == c && result.parentEntry == parent
+//@   ensures flags_applied: result.Delete == flags.delete && result.IsNew == (!flags.delete && flags.new) && !result.IsUpdated &&
+//@            result.DeleteOnlyIntended == (flags.delete && flags.onlyIntended)
+
+// ---------------------------------------------------------------------------
+// LeafVariants: the per-leaf set of values, one per owner
+
+//@ pred lvOK(lv) = lv != nil && forall(i, 0, len(lv.les), lv.les[i] != nil && lv.les[i].Update != nil)
+//@ pred intentOwned(le) = le.Update.owner != RunningIntentName && le.Update.owner != DefaultsIntentName
+//@ pred ownersDistinct(lv) = forall(i, 0, len(lv.les), forall(j, 0, len(lv.les), i != j ==> lv.les[i].Update.owner != lv.les[j].Update.owner))
+//@ pred priosDistinct(lv) = forall(i, 0, len(lv.les), forall(j, 0, len(lv.les), i != j ==> lv.les[i].Update.priority != lv.les[j].Update.priority))
+// running and default entries are inserted without flags and are never marked (markOwnerDelete acts on intent names)
+//@ pred systemEntriesUnflagged(lv) = forall(i, 0, len(lv.les), !intentOwned(lv.les[i]) ==>
+//@        !lv.les[i].Delete && !lv.les[i].DeleteOnlyIntended && !lv.les[i].IsNew && !lv.les[i].IsUpdated)
+// e is live and no live entry has a numerically lower priority
+//@ pred rules(lv, e) = !e.Delete && forall(i, 0, len(lv.les), !lv.les[i].Delete ==> e.Update.priority <= lv.les[i].Update.priority)
+// every intent-owned value is being removed from the device (orphan deletes never reach the device)
+//@ pred allIntentValuesRemoved(lv) = exists(i, 0, len(lv.les), intentOwned(lv.les[i])) &&
+//@        forall(i, 0, len(lv.les), intentOwned(lv.les[i]) ==> lv.les[i].Delete && !lv.les[i].DeleteOnlyIntended)
+
+//@ func (*LeafVariants).GetByOwner
+//@   props C01 C02 C09
+//@   requires lvOK(lv)
+//@   modifies nothing
+//@   ensures found: result != nil ==> result.Update.owner == owner && exists(i, 0, len(lv.les), lv.les[i] == result)
+//@   ensures first_match: result != nil ==> exists(i, 0, len(lv.les), lv.les[i] == result && forall(j, 0, i, lv.les[j].Update.owner != owner))
+//@   ensures absent: result == nil ==> forall(i, 0, len(lv.les), lv.les[i].Update.owner != owner)
+//@   loop 0 invariant forall(j, 0, $n, lv.les[j].Update.owner != owner)
+
+//@ func (*LeafVariants).shouldDelete
+//@   props C01 C09
+//@   requires lvOK(lv)
+//@   modifies nothing
+//@   ensures spec: result == allIntentValuesRemoved(lv)
+//@   loop 0 invariant foundOtherThenRunningAndDefault == exists(j, 0, $n, intentOwned(lv.les[j]))
+//@   loop 0 invariant forall(j, 0, $n, intentOwned(lv.les[j]) ==> lv.les[j].Delete && !lv.les[j].DeleteOnlyIntended)
+
+//@ func (*LeafVariants).canDelete
+//@   props C01
+//@   requires lvOK(lv)
+//@   modifies nothing
+//@   ensures spec: result == (len(lv.les) == 0 ||
+//@            (!(len(lv.les) == 1 && lv.les[0].Update.owner == RunningIntentName) &&
+//@             forall(i, 0, len(lv.les), intentOwned(lv.les[i]) ==> lv.les[i].Delete && !lv.les[i].DeleteOnlyIntended)))
+//@   loop 0 invariant forall(j, 0, $n, intentOwned(lv.les[j]) ==> lv.les[j].Delete && !lv.les[j].DeleteOnlyIntended)
+
+//@ func (*LeafVariants).remainsToExist
+//@   props C01 C04
+//@   requires lvOK(lv)
+//@   modifies nothing
+//@   ensures spec: result == exists(i, 0, len(lv.les), !lv.les[i].Delete)
+//@   loop 0 invariant forall(j, 0, $n, lv.les[j].Delete)
+
+//@ func (*LeafVariants).GetHighestPrecedenceValue
+//@   props C01 C08
+//@   requires lvOK(lv)
+//@   modifies nothing
+//@   ensures lower_bound: forall(i, 0, len(lv.les), !lv.les[i].Delete && lv.les[i].Update.owner != DefaultsIntentName ==> result <= lv.les[i].Update.priority)
+//@   ensures attained: result == 2147483647 || exists(i, 0, len(lv.les), !lv.les[i].Delete && lv.les[i].Update.owner != DefaultsIntentName && lv.les[i].Update.priority == result)
+//@   loop 0 invariant forall(j, 0, $n, !lv.les[j].Delete && lv.les[j].Update.owner != DefaultsIntentName ==> result <= lv.les[j].Update.priority)
+//@   loop 0 invariant result == 2147483647 || exists(j, 0, $n, !lv.les[j].Delete && lv.les[j].Update.owner != DefaultsIntentName && lv.les[j].Update.priority == result)
+
+//@ func (*LeafVariants).highestIsUnequalRunning
+//@   props C01 C09
+//@   requires lvOK(lv) && highest != nil && highest.Update != nil
+//@   modifies nothing
+//@   ensures is_running: highest.Update.owner == RunningIntentName ==> !result
+//@   ensures no_running: highest.Update.owner != RunningIntentName && forall(i, 0, len(lv.les), lv.les[i].Update.owner != RunningIntentName) ==> result
+//@   ensures compares_values: highest.Update.owner != RunningIntentName ==> forall(i, 0, len(lv.les),
+//@            lv.les[i].Update.owner == RunningIntentName && forall(j, 0, i, lv.les[j].Update.owner != RunningIntentName) ==>
+//@            result == !utils.EqualTypedValues(tvOf(lv.les[i].Update), tvOf(highest.Update)))
+
+// The selection that decides what is sent to the device (onlyNewOrUpdated) and what validators see (!onlyNewOrUpdated).
+//@ func (*LeafVariants).GetHighestPrecedence
+//@   props C01 C09
+//@   requires lvOK(lv) && ownersDistinct(lv) && priosDistinct(lv) && systemEntriesUnflagged(lv)
+//@   modifies nothing
+//@   ensures member: result != nil ==> exists(i, 0, len(lv.les), lv.les[i] == result)
+//@   ensures only_ruler_send [C01 C09]: onlyNewOrUpdated && result != nil ==> rules(lv, result)
+//@   ensures only_ruler_view [C04]: !onlyNewOrUpdated && result != nil ==> rules(lv, result)
+//@   ensures never_running_send [C01 C09]: onlyNewOrUpdated && result != nil ==> result.Update.owner != RunningIntentName
+//@   ensures nothing_when_all_removed [C01]: onlyNewOrUpdated && allIntentValuesRemoved(lv) ==> result == nil
+//@   ensures must_send [C01]: onlyNewOrUpdated ==> forall(r, 0, len(lv.les),
+//@            rules(lv, lv.les[r]) && intentOwned(lv.les[r]) &&
+//@            (lv.les[r].IsNew || lv.les[r].IsUpdated || exists(j, 0, len(lv.les), lv.les[j].Delete && lv.les[j].Update.priority < lv.les[r].Update.priority))
+//@            ==> result == lv.les[r])
+//@   ensures quiet [C09]: onlyNewOrUpdated &&
+//@            forall(i, 0, len(lv.les), !lv.les[i].IsNew && !lv.les[i].IsUpdated && !lv.les[i].Delete) &&
+//@            exists(k, 0, len(lv.les), lv.les[k].Update.owner == RunningIntentName &&
+//@               forall(r, 0, len(lv.les), rules(lv, lv.les[r]) ==> utils.EqualTypedValues(tvOf(lv.les[k].Update), tvOf(lv.les[r].Update))))
+//@            ==> result == nil
+//@   loop 0 invariant ($n == 0) == (highest == nil)
+//@   loop 0 invariant ($n <= 1) == (secondHighest == nil)
+//@   loop 0 invariant highest != nil ==> exists(j, 0, $n, lv.les[j] == highest) && forall(j, 0, $n, highest.Update.priority <= lv.les[j].Update.priority)
+//@   loop 0 invariant secondHighest != nil ==> secondHighest != highest && exists(j, 0, $n, lv.les[j] == secondHighest) &&
+//@            forall(j, 0, $n, lv.les[j] != highest ==> secondHighest.Update.priority <= lv.les[j].Update.priority)
+
+//@ func (*LeafVariants).Add
+//@   props C01 C02 C09
+//@   requires lvOK(lv) && ownersDistinct(lv) && le != nil && le.Update != nil
+//@   modifies lv.les, allelems(*LeafEntry), LeafEntry.Update, LeafEntry.IsUpdated, LeafEntry.Delete, LeafEntry.IsNew, LeafEntry.DeleteOnlyIntended
+//@   ensures identical_reinsert [C09 C02 C01]: forall(i, 0, old(len(lv.les)),
+//@            old(lv.les[i].Update.owner) == le.Update.owner && old(lv.les[i].Update).EqualSkipPath(le.Update) ==>
+//@            lv.les[i] == old(lv.les[i]) && !lv.les[i].Delete && !lv.les[i].DeleteOnlyIntended && lv.les[i].Update == old(lv.les[i].Update) &&
+//@            lv.les[i].IsNew == old(lv.les[i].IsNew) && lv.les[i].IsUpdated == old(lv.les[i].IsUpdated))
+//@   ensures changed_value_is_update [C02 C01]: forall(i, 0, old(len(lv.les)),
+//@            old(lv.les[i].Update.owner) == le.Update.owner && !old(lv.les[i].Update).EqualSkipPath(le.Update) ==>
+//@            lv.les[i] == old(lv.les[i]) && lv.les[i].Update == le.Update && lv.les[i].IsUpdated && !lv.les[i].Delete && !lv.les[i].IsNew)
+//@   ensures same_owner_keeps_length [C02 C01]: exists(i, 0, old(len(lv.les)), old(lv.les[i].Update.owner) == le.Update.owner) ==> len(lv.les) == old(len(lv.les))
+//@   ensures new_owner_appended [C02 C01]: forall(i, 0, old(len(lv.les)), old(lv.les[i].Update.owner) != le.Update.owner) ==>
+//@            len(lv.les) == old(len(lv.les)) + 1 && lv.les[old(len(lv.les))] == le
+//@   ensures other_owners_untouched [C02 C01]: forall(i, 0, old(len(lv.les)), old(lv.les[i].Update.owner) != le.Update.owner ==>
+//@            lv.les[i] == old(lv.les[i]) && lv.les[i].Update == old(lv.les[i].Update) && lv.les[i].Delete == old(lv.les[i].Delete) &&
+//@            lv.les[i].DeleteOnlyIntended == old(lv.les[i].DeleteOnlyIntended) && lv.les[i].IsNew == old(lv.les[i].IsNew) && lv.les[i].IsUpdated == old(lv.les[i].IsUpdated))
